@@ -326,12 +326,28 @@ def rule_activate(report, prog, rule='C16-R4'):
     report.check(okk, rule, key(f.qname, 'every type specific activation is inside the try'), f.loc(), 'an activation call is outside the try')
 
 
+def rule_failure_values(report, prog, res, rule='C16-R5'):
+    """R5: helpers that answer a failed tag access with None / (None, None, None) instead of raising (read_tlv, the attribute
+    block readers, the ISO-DEP exchange): every caller in nfc.tag tests for that value before it computes with the result."""
+    from .. import nullness
+    funcs = [f for f in prog.functions.values() if f.qname.startswith('nfc.tag.')]
+    n = 0
+    for f in sorted(funcs, key=lambda f: f.qname):
+        if f.name in ('format', 'protect', 'authenticate', 'activate', 'process_command') or f.name.startswith('_read_ndef'):
+            continue        # results handed to the application / tested by Tag.ndef (C08)
+        kind = nullness.sentinel_kind(f)
+        if kind:
+            n += nullness.check_callers(report, prog, res, f, rule, funcs, 'a %s result on a tag error' % ('(None, ...)' if kind == 'tuple' else 'None'))
+    report.floor(rule, n, 5)
+
+
 def run(report, prog, tier):
     res = Resolver(prog)
     rule_mapping(report, prog)
     rule_escape(report, prog, res, tier)
     rule_retry(report, prog)
     rule_activate(report, prog)
+    rule_failure_values(report, prog, res)
     report.trusted += ['interface summary: in reader mode ContactlessFrontend.exchange raises TimeoutError, TransmissionError, ProtocolError or IOError (C13); '
                        'sense() of the tag\'s own target raises only IOError',
                        'ndeflib raises ndef.DecodeError / ndef.EncodeError']
